@@ -1303,9 +1303,13 @@ def run_c15(ctx):
     for name in ctx.registry:
         if name in listed or name == "EXEC.CMD":
             continue
-        for i in range(2 if q else 30):
+        EXT = [2147483647, -2147483648, 2147483646, 100000, -1]
+        for i in range(5 if q else 30):
             s = g.state(depth=3)
-            s["int"] = [g.r.choice([2147483647, -2147483648, 2147483646, 100000, -1]) for _ in range(4)] + s["int"]
+            # the top operand runs through every extreme, the ones below are drawn
+            s["int"] = [EXT[i % 5]] + [g.r.choice(EXT) for _ in range(3)] + s["int"]
+            if i >= 5 and i % 2:
+                s["int"][0], s["int"][1] = s["int"][1], EXT[i % 5]
             s["float"] = [g.r.choice(gen.F_POOL) for _ in range(3)] + s["float"]
             s["exec"] = [ins(name), ins("NOOP")]
             cs.append({"id": "extreme-%s-%d" % (name, i), "pre": s, "acts": [{"a": "step"}], "predict": "bounded"})
